@@ -10,6 +10,7 @@ StepBad ==
   \/ ~VerifiedRule'
   \/ ~NoCarryOver'
   \/ (last'.a = "VFinish" /\ last'.r = "V4ok" /\ ~verified'[last'.c])
+  \/ (last'.a = "VFinish" /\ last'.r = "V4ok" /\ last'.c \notin sok)
   \/ (last'.a = "Req" /\ last'.r \in {"Served", "RefusedButRun"} /\ ~verified[last'.c])
   \/ (last'.c \in Conn /\ ~verified[last'.c] /\ last'.a # "Close"
         /\ (val' # val \/ cb' # cb \/ extra' # extra \/ legitPaired' # legitPaired \/ ~(subs' \subseteq subs)))
